@@ -2557,7 +2557,7 @@ start_glib_signal (GMarkupParseContext *context,
     signal->run_last = TRUE;
   else if (g_ascii_strcasecmp (when, "FIRST") == 0)
     signal->run_first = TRUE;
-  else
+  else if (g_ascii_strcasecmp (when, "CLEANUP") == 0)
     signal->run_cleanup = TRUE;
 
   if (no_recurse && strcmp (no_recurse, "1") == 0)
